@@ -2,6 +2,9 @@ package codecmisc
 
 import (
 	"encoding/json"
+	"os"
+	"path/filepath"
+	"sort"
 
 	"verifharness/corr"
 	cu "verifharness/dom/codecutil"
@@ -26,6 +29,7 @@ func Run(c *corr.Ctx) {
 		}
 		return
 	}
+	corpusFiles(c, specs)
 	klvCorpus(c)
 	m1vCorpus(c)
 	mjpegCorpus(c)
@@ -36,5 +40,54 @@ func Run(c *corr.Ctx) {
 	c.Flush()
 	for _, s := range specs {
 		cu.RunAll(c, s)
+	}
+}
+
+func corpusDir(prop string) string {
+	if d := os.Getenv("VERIF_ROOT"); d != "" {
+		return filepath.Join(d, "corpus", prop)
+	}
+	if exe, err := os.Executable(); err == nil {
+		d := filepath.Join(filepath.Dir(exe), "..", "..", "corpus", prop)
+		if st, err2 := os.Stat(d); err2 == nil && st.IsDir() {
+			return d
+		}
+	}
+	return "/verif/corpus/" + prop
+}
+
+// corpusFiles runs the recorded inputs corpus/C0x/misc-*.json (replay inputs of the generic driver
+// or of this package) before anything is generated; the larger recorded shapes are built in code
+// (klvCorpus, m1vCorpus, mjpegCorpus).
+func corpusFiles(c *corr.Ctx, specs []*cu.Spec) {
+	for _, prop := range []string{"C03", "C06", "C07", "C08"} {
+		if !c.Want(prop) {
+			continue
+		}
+		files, _ := filepath.Glob(filepath.Join(corpusDir(prop), "misc-*.json"))
+		sort.Strings(files)
+		for _, f := range files {
+			raw, err := os.ReadFile(f)
+			if err != nil {
+				continue
+			}
+			var probe struct {
+				Mode string `json:"mode"`
+			}
+			ok := false
+			if json.Unmarshal(raw, &probe) == nil && probe.Mode == "m1v-overflow" {
+				m1vOverflowCase(c, "corpus-"+filepath.Base(f))
+				ok = true
+			}
+			for _, s := range specs {
+				if !ok && cu.Replay(c, s, raw) {
+					ok = true
+				}
+			}
+			if !ok {
+				c.Note("corpus file not understood: " + f)
+			}
+			c.Dist("corpus-files")
+		}
 	}
 }
